@@ -74,7 +74,9 @@ def cases(tier, sd):
             lam = 0.0 if vac_member else [0.0, 0.3, -0.3][(mi + p) % 3]
             if ds:
                 lam = DESITTER_LAMBDA
-            for vac in ([True, False] if vac_member else [False]):
+            # (the Lambda-vacuum is run with and without the vacuum flag: 'no matter'
+            #  does not mean 'no cosmological constant')
+            for vac in ([True, False] if (vac_member or ds) else [False]):
                 out.append(dict(member=m, order=p, n1=n1, Lambda=lam,
                                 vacuum=vac, box=box, t0=0.3, mode='open',
                                 components=bool((mi + p) % 3 == 0 or m.get('shift_x0')), no_T=ds,
@@ -88,7 +90,7 @@ def cases(tier, sd):
             lam = 0.0 if vac_member else [0.3, 0.0, -0.3][(mi + p) % 3]
             if ds:
                 lam = DESITTER_LAMBDA
-            vac = vac_member and (mi + p) % 2 == 0
+            vac = (vac_member or ds) and (mi + p) % 2 == 0
             out.append(dict(member=m, order=p, n1=n1, Lambda=lam,
                             vacuum=vac, box=box, t0=0.3, mode='periodic',
                             components=bool((mi + p) % 3 == 1 or m.get('shift_x0')), no_T=ds))
